@@ -3,7 +3,7 @@
 (extracted from Coq) on the real output; plus the correspondence with the model's netlist."""
 import collections
 import json
-from harness import common, families, spec
+from harness import common, families, spec, modelio
 
 
 def expected_args(pid, desc):
@@ -49,6 +49,9 @@ def desc_size(d):
 def explore(pid, cases, rep, nontrivial, extra_checks=()):
     """cases: list of (desc, tags).  Returns stats."""
     res = common.run_worker("worker_gen", [{"desc": d} for d, _ in cases])
+    # the model (extracted Coq pipeline, networkx-mirroring oracle) on the same descriptions
+    mreqs = [modelio.request(d) for d, _ in cases]
+    mods = common.run_model(mreqs)
     reqs, idx = [], []
     stats = collections.Counter()
     dist = collections.Counter()
@@ -80,6 +83,38 @@ def explore(pid, cases, rep, nontrivial, extra_checks=()):
     outs = common.run_model(reqs)
     distinct = set()
     best = {}
+    # correspondence model vs implementation: acceptance and the emitted netlist
+    for i, ((d, t), r, m) in enumerate(zip(cases, res, mods)):
+        iok, mok = r["ok"], m[0] == "ok"
+        if iok != mok:
+            stats["acceptance_mismatch"] += 1
+            rep.corr_broken(f"the implementation {'accepts' if iok else 'rejects (' + str(r.get('error'))[:120] + ')'} but the "
+                            f"model {'accepts' if mok else 'rejects (' + str(m[1]).replace('~', ' ')[:120] + ')'} the description {t}",
+                            {"desc": d, "tags": t})
+        elif iok and "nl" in r:
+            inl = common.parse_sx(r["nl"])[0]
+            if inl == m[1]:
+                stats["model_identical"] += 1
+            else:
+                di, dm = dict((k[0], k[1]) for k in inl), dict((k[0], k[1]) for k in m[1])
+                fields = sorted(k for k in di if di[k] != dm.get(k))
+                path_only = set(fields) <= {"tables", "route_bits", "rts"} and all(
+                    [kv for kv in a if kv[0] != "map"] == [kv for kv in b if kv[0] != "map"]
+                    for a, b in zip(di.get("rts", []), dm.get("rts", [])))
+                if path_only:
+                    stats["drift_path_choice"] += 1      # another shortest path was chosen: not a violation
+                else:
+                    stats["netlist_mismatch"] += 1
+                    rep.corr_broken(f"model and implementation emit different netlists for {t}: fields {fields}",
+                                    {"desc": d, "tags": t})
+    try:
+        chk, agr = common.crosscheck_vm(mreqs + reqs)
+        stats["vm_crosscheck"] = chk
+        stats["vm_crosscheck_agreed"] = agr
+        if chk != agr:
+            rep.corr_broken(f"extracted binary and vm_compute disagree on {chk - agr} of {chk} sampled requests", None)
+    except Exception as e:  # the cross-check is auxiliary
+        rep.notes.append(f"vm_compute cross-check not run: {e}")
     for i, out in zip(idx, outs):
         d, t = cases[i]
         stats["checked"] += 1
@@ -119,6 +154,9 @@ def standard_run(pid, tier, seed, rep, replay, algos, nontrivial, rule, extra_ca
         "input_distribution": dict(dist),
         "accepted": stats["accepted"], "rejected": stats["rejected"], "reader_errors": stats["reader_error"],
         "rejected_as_expected": stats["rejected_as_expected"],
+        "model_correspondence": {"identical_netlists": stats["model_identical"], "drift_other_shortest_path": stats["drift_path_choice"],
+                                 "acceptance_mismatches": stats["acceptance_mismatch"], "netlist_mismatches": stats["netlist_mismatch"],
+                                 "extraction_vs_vm_compute": [stats["vm_crosscheck_agreed"], stats["vm_crosscheck"]]},
         "exhaustive": False,
     })
     return stats
